@@ -270,7 +270,7 @@ PLANS = {
                                              + param_fns(c, levels=(0, 1, 2), more_out=(True,), nsets=1)},
                 quick=dict(n=3, m=3, variants=1, generic=1, corners=0, rand=30),
                 thorough=dict(n=4, m=5, variants=2, generic=1, corners=1, rand=400)),
-    "C11": dict(rel=rel_C11, family="opts", want={"np": True, "np_plain": True, "fn": fns((0,)) + fns((2,), syms=("SX",))},
+    "C11": dict(rel=rel_C11, family="opts", want={"np": True, "np_plain": True, "fn": fns((0,)) + fns((2,), syms=("SX",)) + fns((1,), more_out=(True,), syms=("MX",))},
                 quick=dict(n=3, m=3, variants=1, generic=4, corners=4, rand=0),
                 thorough=dict(n=4, m=4, variants=2, generic=8, corners=13, rand=0)),
     "C12": dict(rel=rel_C12, want={"np": True, "pure": True, "fn": []},
@@ -368,7 +368,7 @@ def assess(pid, plan, recs, verdicts, info, nrand):
            "transitions": max(1, info["generated"] + len(recs)),
            "traces_validated_against_impl": len(recs),
            "samples": [summarize(r) for r in (recs[:2] + recs[len(recs) // 2: len(recs) // 2 + 1] + recs[-2:])],
-           "exhaustive": True,
+           "exhaustive": False, "topologies_exhaustive_within_bound": True,
            "explanation": (f"TLC enumerated all {info['shapes']} valid shapes with <= {info['shape_bound'][0]} nodes and "
                            f"<= {info['shape_bound'][1]} links (up to renumbering; +8 larger patterns), x {info['variants']} "
                            f"decorations x {info['generic']} generic + {info['corners']} corner points = {info['cases']} cases, "
